@@ -225,9 +225,9 @@ def subpackage_tree(run: Run):
     len(file.subpackage) - len(view) every target file is reached at the view that equals its own sub-package."""
     from vf.model import pyv
     m = SchemaModel()
-    m.add_class("Proto", {"meta": "Metadata"})
+    m.add_class("Proto", {"meta": "Metadata", "file_to_generate": "Bool"})
     m.classes["Address"]["subpackage"] = "Seq[Str]"
-    m.classes["API"].update({"protos": "Map[Str,Proto]", "subpackage_view": "Seq[Str]", "all_protos": "Opaque", "naming": "Naming",
+    m.classes["API"].update({"protos": "Map[Str,Proto]", "subpackage_view": "Seq[Str]", "all_protos": "Map[Str,Proto]", "naming": "Naming",
                              "_fields": ["naming", "all_protos", "service_yaml_config", "subpackage_view"]})
     m.globals["collections"] = pyv(("module", "collections"))
     m.globals["dataclasses"] = pyv(("module", "dataclasses"))
@@ -235,6 +235,13 @@ def subpackage_tree(run: Run):
     m.add_spec("below", ["p", "view"], "len(p.meta.address.subpackage) > len(view) and forall(lambda i: p.meta.address.subpackage[i] == view[i], 0, len(view))")
     m.add_spec("extends", ["v2", "v", "k"], "len(v2) == len(v) + 1 and forall(lambda i: v2[i] == v[i], 0, len(v)) and v2[len(v)] == k")
     m.add_spec("prefix_of", ["v", "s"], "len(v) <= len(s) and forall(lambda i: v[i] == s[i], 0, len(v))")
+    # API.protos: the files to generate whose sub-package starts with the view, each under its own key (read by contract from here on)
+    cp = Contract("API.protos", source=("gapic/schema/api.py", "API.protos"), params={"self": "API"}, result="Map[Str,Proto]",
+                  ensures=["forall(lambda k: (k in result) == (self.all_protos[k].file_to_generate and "
+                           "prefix_of(self.subpackage_view, self.all_protos[k].meta.address.subpackage)), self.all_protos.keys())",
+                           "forall(lambda k: k in self.all_protos and result[k] is self.all_protos[k], result.keys())"])
+    m.add_contract(cp)
+    run.verify(m, cp)
     seg = "p.meta.address.subpackage[len(self.subpackage_view)]"
     same = "{0}[k].all_protos is self.all_protos and {0}[k].naming is self.naming"
     c = Contract("API.subpackages", source=("gapic/schema/api.py", "API.subpackages"), params={"self": "API"}, result="Map[Str,API]",
@@ -252,12 +259,14 @@ def subpackage_tree(run: Run):
     fdef = ast.parse("def reach_step(api, p):\n    return api.subpackages\n").body[0]
     child = "result[p.meta.address.subpackage[len(api.subpackage_view)]]"
     lem = Contract("lemma.subpackage-tree-reaches-every-file:step", source=("<ghost>", "reach_step"), params={"api": "API", "p": "Proto"}, result="Map[Str,API]",
-                   requires=["exists(lambda q: q is p, api.protos.values())", "prefix_of(api.subpackage_view, p.meta.address.subpackage)",
-                             "len(p.meta.address.subpackage) > len(api.subpackage_view)"],
+                   ghost={"key": "Str"},
+                   requires=["key in api.protos and api.protos[key] is p", "len(p.meta.address.subpackage) > len(api.subpackage_view)"],
                    ensures=["p.meta.address.subpackage[len(api.subpackage_view)] in result",
                             f"prefix_of({child}.subpackage_view, p.meta.address.subpackage)",
                             f"len({child}.subpackage_view) == len(api.subpackage_view) + 1",
-                            f"{child}.all_protos is api.all_protos"])
+                            f"{child}.all_protos is api.all_protos",
+                            # ... and the child's own `protos` (by the API.protos contract) still holds the file, under the same key
+                            f"key in {child}.protos and {child}.protos[key] is p"])
     run.verify(m, lem, body_override=(fdef, "ghost"))
     # the generator walks exactly this tree: _render_template recurses over api_schema.subpackages.values() for %sub templates
     fdef2, h2 = find_def(GEN, "Generator._render_template")
@@ -269,8 +278,8 @@ def subpackage_tree(run: Run):
               detail="%sub templates are rendered once per child of API.subpackages (recursively); per-proto and per-service templates skip files / services whose "
                      "sub-package differs from the view", group="files.subpackages:tree")
     run.assume(*m.assumptions)
-    run.assume("API.protos (the files of all_protos to generate whose sub-package starts with the view) is read as an input of API.subpackages; the tree is finite "
-               "because each level consumes one segment of some file's sub-package (termination of the recursion is not proved)")
+    run.assume("the tree of API objects is finite because each level consumes one segment of some file's sub-package (termination of the recursion is not proved); "
+               "cached_property: API.protos / API.subpackages are evaluated once per object and are functions of its fields")
 
 
 def types_module_injectivity(run: Run):
